@@ -264,7 +264,7 @@ def execModel (w : World) (toks : List String) (hint : String) : World × String
       let r := toString' stdFmts p (if isNull then none else some (pattern capN)) claimed
       let p' := r.1
       let m := if isNull then "NULL" else memOut r.2.2.2.1
-      let x := if r.2.1 && !isNull && r.2.2.1 + 1 ≤ capN then memOut (r.2.2.2.1.extract 0 (r.2.2.1 + 1)) else "-"
+      let x := if r.2.1 && !isNull then memOut (r.2.2.2.1.extract 0 (min (r.2.2.1 + 1) capN)) else "-"
       (setP w k p', s!"{r.2.1.toNat} z{r.2.2.1} m{m} x{x} e{errNum p'.err} d{getDepth p'} u{p'.used}" ++ (if r.2.2.2.2 || p'.fault then " FAULT" else ""))
   -- to_string into a destination of 2 GiB + 4 KiB: by `to_string_protocol` any sufficient capacity gives the same answer,
   -- so the model runs it with a destination that is just large enough
@@ -507,6 +507,9 @@ def textOracle (o : OState) (po : POracle) (toks : List String) (impl : String) 
           (if r != "1" || zN != n then o.flag "C13" s!"capacity {claimed} > text length {n}: expected ret 1 size {n}, got ret {r} size {zN}" else o)
       -- nothing stored at or beyond the claimed capacity; on success the text and its NUL
       if isNull then o else
+      -- whenever the call says true, what it stored is the reference text (C14), whatever the capacity
+      let o := if r == "1" && !isNull && dropPrefix xfield 1 != "-" && claimed ≤ n && claimed ≤ capN then
+          o.flag "C14" s!"to_string returned true but the destination does not hold the reference rendering followed by NUL: got {dropPrefix xfield 1} want {memOut (text ++ [0]).toArray}" else o
       -- the text and its terminator (what lies after the terminator inside the capacity is not specified by C13/C14)
       let expect : Array UInt8 := (text ++ [0]).toArray
       let gotx := dropPrefix xfield 1
@@ -630,7 +633,9 @@ def writerLatchOracle (o : OState) (k : Nat) (toks : List String) (impl : String
     let o := match wo.lastDump with
       | some d =>
         let o := { o with nLatchJudged := o.nLatchJudged + 1 }
-        if wo.errNow && d != impl then o.flag "C09" s!"@{k} the writer stored bytes while its error flag was latched: destination {d} became {impl}" else o
+        if wo.errNow && d != impl then
+          (o.flag "C09" s!"@{k} the writer stored bytes while its error flag was latched: destination {d} became {impl}").flag
+            "C04" s!"@{k} after the first piece that did not fit (or another error) the destination was modified again: {d} became {impl}" else o
       | none => o
     setWO o { wo with lastDump := if wo.errNow then some impl else none }
   | _ =>
@@ -672,6 +677,9 @@ def writerOracle (o : OState) (k : Nat) (toks : List String) (impl : String) : O
   match toks with
   | ["W", cap] =>
     let isNull := cap == "NULL"
+    -- C12: init on a NULL destination is refused and leaves nothing of an earlier use behind: false, ERROR_NULL, counter 0
+    let o := if isNull && impl != "0 e5 c0" then
+        o.flag "C12" s!"@{k} binson_writer_init(w, NULL, n) must return false with ERROR_NULL and counter 0 whatever the object held before: {impl}" else o
     setWO o { cap := if isNull then 0 else cap.toNat!, isNull := isNull, broken := isNull,
               base := pattern (if isNull then 0 else cap.toNat!) }
   | ["wnN"] | ["wrN", _] | ["wrH"] => setWO o { wo with broken := true }
@@ -692,7 +700,9 @@ def writerOracle (o : OState) (k : Nat) (toks : List String) (impl : String) : O
     let o := { o with nWriterJudged := o.nWriterJudged + 1 }
     let pre := fitted wo.cap 0 wo.pieces.reverse
     let want := (pre ++ wo.base.toList.drop pre.length).toArray
-    if impl != "m" ++ memOut want then o.flag "C04" s!"@{k} destination is not prefix-of-encoding + untouched: got {impl} want m{memOut want}" else o
+    if impl != "m" ++ memOut want then
+      (o.flag "C04" s!"@{k} destination is not prefix-of-encoding + untouched: got {impl} want m{memOut want}").flag
+        "C05" s!"@{k} the bytes produced are not the canonical encoding of the values written so far (integers and lengths in shortest form, doubles as their 8 IEEE-754 bytes, text and bytes verbatim): got {impl} want m{memOut want}" else o
   | ["wv"] =>
     if wo.broken || impl == "skip" then o else
     -- C05: a well-formed sequence must be accepted by writer_verify (object nesting <= 10)
@@ -708,6 +718,16 @@ def writerOracle (o : OState) (k : Nat) (toks : List String) (impl : String) : O
     match opOf with
     | none => o
     | some op =>
+      -- a NULL destination (size-only run): nothing can be stored, but the counter keeps counting (C09)
+      if wo.isNull then
+        let ps := specPieces op
+        let wo := { wo with total := wo.total + (ps.map List.length).sum }
+        let o := setWO o wo
+        (match parts with
+         | _ :: _ :: c :: _ => if (dropPrefix c 1).toNat! != wo.total then
+               o.flag "C09" s!"@{k} size-only run on a NULL destination: the counter is {c} after {toks}, the exact encoded size so far is {wo.total}" else o
+         | _ => o)
+      else
       if wo.broken then o else
       let ps := specPieces op
       let wo := { wo with pieces := ps.reverse ++ wo.pieces, total := wo.total + (ps.map List.length).sum, toks := op :: wo.toks }
@@ -791,6 +811,18 @@ def oracleStep (o : OState) (toks : List String) (impl : String) : OState :=
              (match wparts with
               | _ :: e :: c :: _ => if e != wo.lastE || c != wo.lastC then
                     o.flag "C11" s!"@{k} parser_to_writer was refused but changed the writer: error/counter {wo.lastE}/{wo.lastC} became {e}/{c}" else o
+              | _ => o)
+           else o
+         let movedBy := (parseObs pp).used - po.lastUsed
+         -- (only where the protocol allows the call: the reference cursor stands on an un-entered container)
+         let onContainer := match po.cursor with
+           | some c => c.allowed .raw && (match c.cur with | some n => n.item.ty == .object || n.item.ty == .array | none => false)
+           | none => false
+         let o := if onContainer && pp.startsWith "0" && (parseObs pp).err == 0 && movedBy > 0 && wo.lastE == "e0" then
+             (match wparts with
+              | _ :: e :: c :: _ =>
+                if (e != "e0" && e != "e1") || (dropPrefix c 1).toNat! != (dropPrefix wo.lastC 1).toNat! + movedBy then
+                  o.flag "C11" s!"@{k} parser_to_writer extracted a container of {movedBy} bytes but did not hand exactly those bytes to the writer: writer {wo.lastE}/{wo.lastC} became {e}/{c}" else o
               | _ => o)
            else o
          let o := if pp.startsWith "1" then
